@@ -5,6 +5,7 @@ import (
 	"fmt"
 	"io/fs"
 	"os"
+	"path"
 	"path/filepath"
 	"runtime/debug"
 	"sort"
@@ -659,6 +660,26 @@ func (x *runner) opPurge(o opSpec) {
 		return !removed[f] && !removed[f+".sig"]
 	}
 	owned := map[string]bool{} // removed files that belong to some version
+	// files that are the "unpacked path" (storage path minus last extension) of a version
+	// of some resource whose file this purge removed
+	sibling := map[string]string{}
+	for _, id := range x.m.Order {
+		for _, v := range x.m.Res[id].Vers {
+			f := mainFile(id, v)
+			if ext := path.Ext(f); ext != "" && removed[f] {
+				sibling[strings.TrimSuffix(f, ext)] = id + " v" + v.Key
+			}
+		}
+	}
+	if x.c.Sibling {
+		x.b.Count("purge_in_registry_with_sibling_identifiers", 1)
+	}
+	for f := range sibling {
+		if before[f] {
+			// the unpacked path of a version that was just purged is the file of a version of another resource
+			x.b.Count("purge_unpacked_path_is_file_of_sibling_resource", 1)
+		}
+	}
 	want := o.Keep
 	if want < 0 {
 		want = 0
@@ -691,8 +712,12 @@ func (x *runner) opPurge(o opSpec) {
 				needed[nv.v] = nv.role
 			}
 			if !intact(id, nv.v) {
-				x.violate("C19:purge:removed-needed:"+nv.role+unsorted,
-					fmt.Sprintf("Purge(%d) removed the file of the %s version %s of resource %s", o.Keep, nv.role, nv.v, id),
+				cls, why := unsorted, ""
+				if by := sibling[mainFile(id, nv.v)]; by != "" {
+					cls, why = ":sibling-unpacked-path", " (as the unpacked path of the purged "+by+")"
+				}
+				x.violate("C19:purge:removed-needed:"+nv.role+cls,
+					fmt.Sprintf("Purge(%d) removed the file of the %s version %s of resource %s%s", o.Keep, nv.role, nv.v, id, why),
 					map[string]any{"resource": id, "versions_before_in_list_order": olistStr(preSnap[id].list), "active": key(mr.Active), "selected": key(mr.Selected),
 						"newest_stable": key(mr.newestStable()), "removed": keys(removed)})
 			}
@@ -700,11 +725,15 @@ func (x *runner) opPurge(o opSpec) {
 		// (2) at least `keep` further versions keep their files
 		further, keptFurther, furtherWithFile, keptWithFile := 0, 0, 0, 0
 		nremoved := 0
+		viaSibling := ""
 		for _, v := range mr.Vers {
 			f := mainFile(id, v)
 			if removed[f] {
 				owned[f] = true
 				nremoved++
+				if sibling[f] != "" {
+					viaSibling = ":sibling-unpacked-path"
+				}
 			}
 			if removed[f+".sig"] {
 				owned[f+".sig"] = true
@@ -735,6 +764,9 @@ func (x *runner) opPurge(o opSpec) {
 			x.b.Count("purge_resources_untouched", 1)
 		}
 		if min(want, further) > keptFurther {
+			if viaSibling != "" {
+				unsorted = viaSibling
+			}
 			x.violate("C19:purge:kept-too-few"+unsorted, fmt.Sprintf("Purge(%d) left only %d of %d further versions of resource %s untouched", o.Keep, keptFurther, further, id),
 				map[string]any{"resource": id, "versions_before_in_list_order": olistStr(preSnap[id].list), "removed": keys(removed)})
 		}
@@ -746,14 +778,18 @@ func (x *runner) opPurge(o opSpec) {
 		if ps != nil {
 			obs, _ := collapse(ps.list)
 			var ghosts []string
+			gcls := ":sibling-unpacked-path"
 			for _, e := range ps.list {
 				p, ok := parseRefVersion(e.Ver)
 				if ok && e.Avail && removed[mainFile(id, p)] {
 					ghosts = append(ghosts, e.Ver)
+					if sibling[mainFile(id, p)] == "" {
+						gcls = ""
+					}
 				}
 			}
 			if len(ghosts) > 0 {
-				x.violate("C19:purge:listed-available-without-file",
+				x.violate("C19:purge:listed-available-without-file"+gcls,
 					fmt.Sprintf("after Purge(%d) resource %s lists %v as available, their files were just removed", o.Keep, id, ghosts),
 					map[string]any{"resource": id, "versions_before_in_list_order": olistStr(preSnap[id].list), "versions_after": olistStr(ps.list),
 						"selected": key(mr.Selected), "active": key(mr.Active), "removed": keys(removed)})
